@@ -1,6 +1,6 @@
 // Native replay for the HDF5 start distribution (HDF5File::readPhaseSpace through makePSFromHDF5) on the real sources.
 // usage: h5start_replay all
-//   writes start files whose /PhaseSpace/data has an unexpected shape (scalar, no records, grid size 0 or 1, rank 2, rank 5)
+//   writes start files whose /PhaseSpace/data has an unexpected shape (scalar, no records, grid size 0 or 1, rank 2, rank 5, several bunches)
 //   plus a good one, loads each with the real function in a child process, and requires: no crash (signal), and either a
 //   phase space of the stored grid size or a refusal (nullptr) — C17: "either completes or stops with a message".
 // exit 0 fine, 1 some file crashes the loader, 3 usage
@@ -34,7 +34,8 @@ int main(int argc, char** argv) {
     if (argc != 2) return 3;
     struct C { const char* name; std::vector<hsize_t> dims; long want; } cases[] = {
         {"good", {2, 16, 16}, 16}, {"good_rank4", {1, 1, 8, 8}, 8}, {"scalar", {}, -1}, {"no_records", {0, 16, 16}, -1}, {"grid_size_0", {1, 0, 0}, -1},
-        {"grid_size_1", {1, 1, 1}, -1}, {"rank2", {4, 4}, -1}, {"rank5", {1, 1, 4, 4, 2}, -1}};
+        {"grid_size_1", {1, 1, 1}, -1}, {"rank2", {4, 4}, -1}, {"rank5", {1, 1, 4, 4, 2}, -1},
+        {"two_bunches", {1, 2, 8, 8}, -1}, {"three_bunches_two_records", {2, 3, 8, 8}, -1}};    // C11: a multi-bunch results file is refused, not loaded in part
     int bad = 0;
     H5::Exception::dontPrint();
     for (auto& c : cases) {
